@@ -392,6 +392,8 @@ impl MetadataBlockData {
     /// ```
     pub fn new_unknown(tag: u8, data: &[u8]) -> Result<Self, VerifyError> {
         verify_range!("tag", tag, 0..=126)?;
+        // the length field of a metadata block header has 24 bits.
+        verify_range!("data.len", data.len(), ..(1usize << 24))?;
         Ok(Self::Unknown {
             typetag: tag,
             data: data.to_owned(),
